@@ -1,13 +1,21 @@
-"""Re-evaluate every seeded change against its own property's check (quick tier): python tools_seeded_all.py [--all-checks]"""
+"""Re-evaluate every seeded change against its own property's check (quick tier):
+
+    python tools_seeded_all.py [--all-checks] [--jobs N] [--only C05,C07k]
+
+Each change is evaluated by tools_seeded_intake.py --re in its own scratch copy; --jobs runs several at a time."""
 import glob
 import json
 import os
 import subprocess
 import sys
+from concurrent.futures import ThreadPoolExecutor
 
 HERE = os.path.dirname(os.path.abspath(__file__))
-missed = []
-for path in sorted(glob.glob(os.path.join(HERE, "seeded", "*", "meta.json"))):
+jobs = int(sys.argv[sys.argv.index("--jobs") + 1]) if "--jobs" in sys.argv else 1
+only = [x for x in sys.argv[sys.argv.index("--only") + 1].split(",") if x] if "--only" in sys.argv else []
+
+
+def evaluate(path: str):
     name = os.path.basename(os.path.dirname(path))
     meta = json.load(open(path))
     own = meta.get("property", name[:3])
@@ -15,6 +23,10 @@ for path in sorted(glob.glob(os.path.join(HERE, "seeded", "*", "meta.json"))):
     proc = subprocess.run([sys.executable, os.path.join(HERE, "tools_seeded_intake.py"), os.path.join(HERE, "seeded", name), "--re", "--checks", checks], capture_output=True, text=True)
     line = next((l for l in proc.stdout.splitlines() if l.startswith(name)), proc.stdout[-200:] + proc.stderr[-200:])
     print(line, flush=True)
-    if f"{own}:CAUGHT" not in line:
-        missed.append(name)
-print("own-check misses:", missed)
+    return name, f"{own}:CAUGHT" in line
+
+
+paths = [p for p in sorted(glob.glob(os.path.join(HERE, "seeded", "*", "meta.json"))) if not only or any(os.path.basename(os.path.dirname(p)).startswith(o) for o in only)]
+with ThreadPoolExecutor(max_workers=jobs) as pool:
+    results = list(pool.map(evaluate, paths))
+print("own-check misses:", [name for name, caught in results if not caught])
